@@ -10,7 +10,7 @@ META = {
 }
 SHARDS = {'quick': 4, 'thorough': 16}
 SHARD_TIMEOUT = {'quick': 300, 'thorough': 1500}
-N = {'quick': 120, 'thorough': 1200}
+N = {'quick': 400, 'thorough': 1200}
 OPS = {'quick': 30, 'thorough': 50}
 import re
 
@@ -253,6 +253,7 @@ def run_history(spec, modes, workdir, rng, n_ops, ops=None, force_load=False, na
     # classification replays (deviation rule of the known unloaded-reference finding) must run with the same hooks
     eng.replayer = lambda ops2, fl: run_history(spec, modes, workdir, _random.Random(0), 0, ops=ops2, force_load=fl, name='hkcls')[0].reports
     eng.gen_exclude = {'HLog'}
+    eng.followup_rate = 0.3      # obj.flush() of the object just created / changed (with its unsaved principals), often
     eng.gen_exclude_attrs = {'hk', 'hklinks'}      # the hook-owned attribute is written by hooks only
     orig_step = eng.step
     def step(op):
